@@ -823,4 +823,40 @@ theorem fromArrayAdj_follows (isSlice : Bool) (v : J) :
       have hp : t.lengthInt + 1 > 0 := by omega
       cases isSlice <;> simp [fromArrayAdj, fromArrayTakesFirst, jSeqLen, JL.lengthInt, hp]
   | _ => cases isSlice <;> rfl
+/-! ### round 5c: `buildStructFieldsInfo` with its merging -/
+/-- **`buildStructFieldsInfo` with merging = `infoFields`** whenever no two (flattened) fields of the struct share a
+lower-cased key: the theorems stated over `infoOf` (`key_case_insensitive*`) then speak about the info the code builds
+through `addOrMergeFields` / `mergeFields`. -/
+theorem infoFieldsM_eq_infoFields (fs : Fields) (h : hasDup (infoFields fs).keys = false) :
+    infoFieldsM fs = some (infoFields fs) := by
+  unfold infoFieldsM
+  rw [addAll_fresh (infoFields fs) .nil (fun _ _ => rfl) h]
+  rfl
+
+
+/-- the case-insensitivity theorems RUN THROUGH the merging construction: when no two flattened fields share a
+lower-cased key, the info the code builds (`infoFieldsM`) exists and lowers a document and each of its type-directed
+re-casings to the same tree (hence `key_case_insensitive(_env / _all_formats)`). -/
+theorem key_case_insensitive_through_merge (fs : Fields) (j j' : J) (h : recasedTy (.struct fs) j j' = true)
+    (hd : hasDup (infoFields fs).keys = false) :
+    ∃ im, infoFieldsM fs = some im ∧ lowerVal (.node im) j = lowerVal (.node im) j' :=
+  ⟨infoFields fs, infoFieldsM_eq_infoFields fs hd, by simpa [infoOf] using lower_recased (.struct fs) j j' h⟩
+
+def mergeTyA : Fields := .cons { name := "A".toList, key := "a".toList, optional := false, embedded := false } (.prim .string) .nil
+def mergeTyB : Fields := .cons { name := "B".toList, key := "b".toList, optional := false, embedded := false } (.prim .string) .nil
+/-- `struct{ X struct{A string `json:"a"`} `json:"in"`; Y struct{B string `json:"b"`} `json:"IN"` }` -/
+def mergeTy : Fields :=
+  .cons { name := "X".toList, key := "in".toList, optional := false, embedded := false } (.struct mergeTyA)
+    (.cons { name := "Y".toList, key := "IN".toList, optional := false, embedded := false } (.struct mergeTyB) .nil)
+
+/-- where the two differ: two struct-typed fields under one lower-cased key with DISJOINT children are MERGED by the
+code (one child `in` with the children a and b), while `infoConflict` (the over-approximation the loader model uses)
+calls it a conflict; the same key over a leaf is a conflict for both. -/
+theorem merge_accepts_disjoint_struct_children :
+    infoFieldsM mergeTy = some (.cons "in".toList (.node (.cons "a".toList (.node .nil) (.cons "b".toList (.node .nil) .nil))) .nil) ∧
+    infoConflict (.struct mergeTy) = true ∧
+    infoFieldsM (.cons { name := "X".toList, key := "in".toList, optional := false, embedded := false } (.struct mergeTyA)
+      (.cons { name := "Y".toList, key := "IN".toList, optional := false, embedded := false } (.prim .string) .nil)) = none := by
+  decide
+
 end GoZero.C17
